@@ -1,3 +1,66 @@
+//! C12 / C13: the colour a source produces at every pixel.  The scenario's source is rendered
+//! over the whole surface with blend mode Src at full coverage, so the pixel IS the source
+//! colour.  `via` selects how the source reaches the pixels: "fill" (default), "draw_image_at",
+//! "draw_image_with_size_at".
+use crate::canvas::{parse_transform, with_source};
+use crate::util::*;
+use raqote::*;
 use serde_json::{json, Value};
-pub fn run(sc: &Value) -> Value { json!({"id": sc["id"], "outcome": "unimplemented"}) }
-pub fn drive(_fam: &str, _seed: u64, _n: usize) -> Vec<Value> { Vec::new() }
+
+pub fn run(sc: &Value) -> Value {
+    let w = int(&sc["w"]);
+    let h = int(&sc["h"]);
+    let den = den_of(sc, "den", 1.0);
+    let ctm = if sc.get("ctm").is_some() { parse_transform(&sc["ctm"]) } else { Transform::identity() };
+    let alpha = if sc.get("alpha").is_some() { num(&sc["alpha"]) } else { 1.0 };
+    let via = sc["via"].as_str().unwrap_or("fill");
+    let mut dt = DrawTarget::new(w, h);
+    let r = std::panic::catch_unwind(std::panic::AssertUnwindSafe(|| {
+        dt.set_transform(&ctm);
+        let o = DrawOptions { blend_mode: BlendMode::Src, alpha, antialias: AntialiasMode::Gray };
+        match via {
+            "fill" => {
+                let inv = match ctm.inverse() {
+                    Some(i) => i,
+                    None => return,
+                };
+                let m = 4.0;
+                let c = [
+                    inv.transform_point(Point::new(-m, -m)),
+                    inv.transform_point(Point::new(w as f32 + m, -m)),
+                    inv.transform_point(Point::new(w as f32 + m, h as f32 + m)),
+                    inv.transform_point(Point::new(-m, h as f32 + m)),
+                ];
+                let mut pb = PathBuilder::new();
+                pb.move_to(c[0].x, c[0].y);
+                pb.line_to(c[1].x, c[1].y);
+                pb.line_to(c[2].x, c[2].y);
+                pb.line_to(c[3].x, c[3].y);
+                pb.close();
+                let p = pb.finish();
+                with_source(&sc["src"], den, &mut |s| dt.fill(&p, s, &o));
+            }
+            "draw_image_at" | "draw_image_with_size_at" => {
+                let img = &sc["src"]["img"];
+                let data = unpix(&img["data"]);
+                let image = Image { width: int(&img["w"]), height: int(&img["h"]), data: &data };
+                let d = &sc["dest"];
+                if via == "draw_image_at" {
+                    dt.draw_image_at(numd(&d[0], den), numd(&d[1], den), &image, &o);
+                } else {
+                    dt.draw_image_with_size_at(numd(&d[2], den), numd(&d[3], den), numd(&d[0], den), numd(&d[1], den), &image, &o);
+                }
+            }
+            _ => panic!("bad via"),
+        }
+    }));
+    let mut out = sc.as_object().unwrap().clone();
+    out.insert("outcome".into(), json!(if r.is_ok() { "ok" } else { "panic" }));
+    out.insert("pix".into(), pix(dt.get_data()));
+    out.insert("ctm_after_same".into(), json!(*dt.get_transform() == ctm));
+    Value::Object(out)
+}
+
+pub fn drive(_fam: &str, _seed: u64, _n: usize) -> Vec<Value> {
+    Vec::new()
+}
